@@ -26,6 +26,19 @@ return behind a side effect, boolean, string, invocations of a sibling bridge);
 each is invoked from python (in both orders) and from OAL expressions,
 `bridge x = ...` / `bridge ...` statements, a where clause and a loop condition.
 
+Parameter-name family: for every name the library's own functions use (parameters,
+variables, attributes, globals of bridgepoint.interpret / bridgepoint.ooaofooa, read
+from their code objects), python keywords, conventional python names and the names of
+the model -- as far as OAL accepts them behind `param.` -- a function, a bridge, a
+class-based and an instance-based operation with a parameter of that name are invoked
+from python by keyword and from OAL.
+
+Shadow family: bodies (function, bridge, operations, derived attribute) write a variable
+spelled like a domain symbol (function, constant, enumeration, external entity, class);
+step sequences over their invocation, the read of the symbol from python, from an OAL
+function, and from an OAL function that reads, invokes and reads again, run on one
+component; the symbol must stay what was modeled.
+
 History family: for every body of the derived attribute (total ones and
 partial ones that are erroneous on some populations) every executable sequence
 of HIST_LEN steps over {python read, read by an OAL function, create, write N,
@@ -58,6 +71,17 @@ ASSUMPTIONS = [
     'loop variable, selection or creation result) is another thing, and writing it leaves param.x as it was passed',
     'every bridge of an external entity runs its own body, whatever the number and order of the bridges of that entity; extra bridges '
     'are invoked with exactly their own parameters',
+    'parameter names: a modeled parameter may carry any name that OAL accepts behind `param.` -- in particular every name of a '
+    'parameter, variable, attribute or global that the functions of bridgepoint.interpret and bridgepoint.ooaofooa of the tree '
+    'under test use themselves (taken from their code objects), python keywords and conventional python names, and the names of '
+    'the model; for each such name a function (recursive), a bridge, a class-based and an instance-based operation with a parameter '
+    'of that name (integer, string, boolean) are invoked from python by keyword (both keyword orders) and from an OAL body.  Kept '
+    'out: a class-based operation with a parameter named `cls` (the unmodified library raises TypeError, reported in round 11)',
+    'variables spelled like domain symbols: a variable of a body is another thing than the function, constant, enumeration, '
+    'external entity or class of the same spelling; writing it (assignment, also inside a nested block or from the constant of '
+    'that name, selection result, loop variable, creation result; in a function, bridge, operation or derived attribute) leaves the '
+    'symbol as modeled for the caller, for later invocations and for python.  Inside the body that wrote the variable the symbol is '
+    'not used in its modeled role afterwards (what the name denotes there is not compared)',
     'histories: a read of a derived attribute whose body is erroneous on the current data (attribute access through an empty '
     'selection, division by zero in a nested call) has no defined outcome -- it is performed and whatever it delivers or raises is '
     'ignored; every read the reference accepts, before or after such a rejected read, must deliver the value computed from the '
@@ -1173,7 +1197,7 @@ GENERATE IN INSTANCES INSTANCE MANY OBJECT ONE RELATED RELATE SELECT STOP TO WHE
 PYTHON_CONVENTIONAL = ['self', 'cls', 'args', 'kwargs', 'kwds', 'kw', 'mcs', 'klass', 'other', 'result', 'return_value']
 PN_ENTRIES = ['py:function', 'py:function, keywords the other way round', 'py:bridge', 'py:class operation', 'py:instance operation', 'oal']
 # (name, entry) pairs the unmodified library gets wrong; kept out of the run, see the report of round 11
-PN_KNOWN = {}
+PN_KNOWN = {'cls': ('py:class operation', 'oal')}
 
 
 def admissible_parameter_name(name):
@@ -1223,17 +1247,16 @@ def parameter_names(tier):
             src[n] = 'python keyword'
         for n in sorted(variables):
             src[n] = 'parameter or variable of a library function'
-        if tier != 'thorough':
-            # quick: the names the library uses other than as parameters / variables are left to the thorough tier,
-            # apart from those spelled like attributes of the walkers and of the symbol table
-            keep = ('kwargs', 'instance', 'return_value', 'symtab', 'domain', 'attribute_name', 'symbols', 'accept', 'find_symbol')
-            src = dict((n, s) for n, s in src.items() if s != 'name used by the library' or n in keep)
         _PN_NAMES[tier] = sorted((n, s) for n, s in src.items() if admissible_parameter_name(n))
     return _PN_NAMES[tier]
 
 
-def pn_spec(nm):
-    q = 'q' if nm != 'q' else 'w'
+def pn_partner(nm, partner=None):
+    return partner if partner is not None else ('q' if nm != 'q' else 'w')
+
+
+def pn_spec(nm, partner=None):
+    q = pn_partner(nm, partner)
     pf = [IF(B('<=', P(q), I(0)), [RET(P(nm))]),
           RET(('fcall', 'pf', [(nm, B('+', P(nm), P(q))), (q, B('-', P(q), I(1)))]))]
     pb = [RET(B('+', P(nm), P(q)))]
@@ -1254,10 +1277,10 @@ def pn_spec(nm):
     return spec, q
 
 
-def pn_run(nm, entry, real, bp=None):
+def pn_run(nm, entry, real, bp=None, partner=None):
     '''The value of one entry for the parameter name nm: through the library (real; on a new component of the BridgePoint
     model bp) or through the reference.'''
-    spec, q = pn_spec(nm)
+    spec, q = pn_spec(nm, partner)
     args = {'py:function': [(nm, 3), (q, 2)], 'py:function, keywords the other way round': [(q, 2), (nm, 3)],
             'py:bridge': [(nm, 'a'), (q, 'b')], 'py:class operation': [(q, 4), (nm, False)],
             'py:instance operation': [(nm, 3), (q, 1)], 'oal': []}[entry]
@@ -1290,42 +1313,277 @@ def pn_run(nm, entry, real, bp=None):
         return dom.find_symbol('main')()
 
 
-def compare_parameter_name(ctx, nm, entry, bp=None):
-    case = dict(family='paramname', name=nm, entry=entry)
+def compare_parameter_name(ctx, nm, entry, bp=None, partner=None):
+    case = dict(family='paramname', name=nm, entry=entry, partner=pn_partner(nm, partner))
     what = 'paramname:%s' % entry.split(',')[0].replace('py:', '').replace(' ', '-')
-    exp = pn_run(nm, entry, False)
+    exp = pn_run(nm, entry, False, None, partner)
     ctx.count('calls')
     ctx.count('paramname_calls')
     try:
-        got = pn_run(nm, entry, True, bp)
+        got = pn_run(nm, entry, True, bp, partner)
     except core.Timeout:
         ctx.violation('c15:%s:hang' % what, case, '%s with a parameter named %r does not return within 10 s' % (entry, nm), None, 'timeout')
         return 'bad'
     except Exception as e:
         ctx.violation('c15:%s:crash:%s' % (what, type(e).__name__), case,
-                      '%s of a callable whose modeled parameter is named %r raised %s: %s; expected %r'
-                      % (entry, nm, type(e).__name__, e, exp), norm(exp), type(e).__name__)
+                      '%s of a callable whose modeled parameters are named %r and %r raised %s: %s; expected %r'
+                      % (entry, nm, case['partner'], type(e).__name__, e, exp), norm(exp), type(e).__name__)
         return 'bad'
     if norm(got) != norm(exp):
-        ctx.violation('c15:%s:value' % what, case, '%s of a callable whose modeled parameter is named %r returned %r, expected %r'
-                      % (entry, nm, got, exp), norm(exp), norm(got))
+        ctx.violation('c15:%s:value' % what, case, '%s of a callable whose modeled parameters are named %r and %r returned %r, expected %r'
+                      % (entry, nm, case['partner'], got, exp), norm(exp), norm(got))
         return 'bad'
     ctx.count('traces')
     ctx.distinct('outcomes', ('paramname', entry, repr(norm(exp))))
-    ctx.distinct('nontrivial', ('paramname', nm, entry))
+    ctx.distinct('nontrivial', ('paramname', nm, case['partner'], entry))
     return 'ok'
 
 
+def pn_known(nm, partner, entry):
+    return any(entry in PN_KNOWN.get(n, ()) for n in (nm, partner))
+
+
 def paramname_task(ctx, task):
-    tier, names = task
-    for nm in names:
+    tier, pairs = task
+    for nm, partner in pairs:
         ctx.count('parameter_names')
-        bp = build_mini_model(pn_spec(nm)[0])
+        bp = build_mini_model(pn_spec(nm, partner)[0])
         for entry in PN_ENTRIES:
-            if entry in PN_KNOWN.get(nm, ()):
+            if pn_known(nm, partner, entry):
                 ctx.count('paramname_known_defect_skipped')
                 continue
-            compare_parameter_name(ctx, nm, entry, bp)
+            compare_parameter_name(ctx, nm, entry, bp, partner)
+
+
+def parameter_name_pairs(tier):
+    """(name, partner): every name of the alphabet beside the partner q; thorough: also beside the next name of the alphabet."""
+    names = [n for n, _ in parameter_names(tier)]
+    out = [(n, pn_partner(n)) for n in names]
+    if tier == 'thorough':
+        out += [(n, names[(i + 1) % len(names)]) for i, n in enumerate(names)]
+    return out
+
+
+# ---- locals spelled like domain symbols ---------------------------------------------------------------------------
+# One model holds function total(n), constants MAX = 100 and GREETING = "hello", enumeration Color, external entity EE with
+# bridge b, class K (attribute W, class operation cop).  For a symbol X of that model it also holds callables whose bodies
+# write a variable spelled X (assigned, assigned inside a nested block, assigned from the constant of that name, selection
+# result, loop variable, creation result) in a function, a bridge, a class operation, an instance operation and a derived
+# attribute; a function rd that reads the symbol in its modeled role; and functions sw_<kind> that read the symbol, invoke
+# one of those callables and read the symbol again.  Histories: every sequence of SHADOW_LEN steps over the invocations of
+# those callables from python, the python read of the symbol, rd() and sw_<kind>() that ends with a read, on one component.
+
+SHADOW_LEN = {'quick': 3, 'thorough': 4}
+SHADOW_SYMBOLS = [['function', 'total'], ['function accumulating in a variable of its own name', 'total'], ['integer constant', 'MAX'],
+                  ['string constant', 'GREETING'], ['enumeration', 'Color'], ['external entity', 'EE'], ['class', 'K']]
+SHADOW_KINDS = ['function', 'bridge', 'class operation', 'instance operation', 'derived attribute']
+SHADOW_FORMS = ['assign', 'assign in a nested block', 'select any', 'for each', 'create']      # + 'assign from the constant' for constants
+SHADOW_ENUM = ['Red', 'Green', 'Blue']
+SHADOW_CONSTANTS = [('MAX', 'integer', '100', 100), ('GREETING', 'string', 'hello', 'hello')]
+
+
+def shadow_forms(symbol):
+    return SHADOW_FORMS + (['assign from the constant'] if 'constant' in symbol[0] else [])
+
+
+def shadow_alphabet(symbol):
+    calls = [['call', 'function', f] for f in shadow_forms(symbol)] + [['call', k, 'assign'] for k in SHADOW_KINDS[1:]]
+    return calls + [['pyread'], ['oalread']] + [['sandwich', k] for k in SHADOW_KINDS]
+
+
+def shadow_read_expr(symbol):
+    '''(OAL expression reading the symbol in its modeled role, literal it is to equal).'''
+    kind, x = symbol
+    if kind.startswith('function'):
+        return F_('total', n=I(2)), I(3)
+    if kind == 'integer constant':
+        return V(x), I(100)
+    if kind == 'string constant':
+        return V(x), ('str', 'hello')
+    if kind == 'enumeration':
+        return ('enum', 'Color', 'Blue'), I(2)
+    if kind == 'external entity':
+        return NC('EE', 'b', p=I(1)), I(2)
+    return NC('K', 'cop', k=I(1)), I(2)
+
+
+def shadow_body(symbol, form, base):
+    '''Statements that write a variable spelled like the symbol and deliver a value computed from it; base = expression.'''
+    x = symbol[1]
+    if form == 'assign':
+        return [ASG(V(x), base), ASG(V(x), B('+', V(x), I(1))), V(x)]
+    if form == 'assign in a nested block':
+        return [ASG(V('r'), I(0)), IF(B('>', base, I(0)), [ASG(V(x), B('*', base, I(2))), ASG(V('r'), B('+', V(x), I(1)))]), V('r')]
+    if form == 'assign from the constant':
+        more = ('str', '!') if symbol[0] == 'string constant' else base
+        return [ASG(V(x), B('+', V(x), more)), V(x)]
+    if form == 'select any':
+        return [('selfrom', 'any', x, 'K', None, True), ASG(V('r'), base), IF(('un', 'not_empty', V(x)), [ASG(V('r'), B('+', V('r'), ('field', V(x), 'W')))]), V('r')]
+    if form == 'for each':
+        return [('selfrom', 'many', 'ks', 'K', None, True), ASG(V('t'), base),
+                ('foreach', x, 'ks', [ASG(V('t'), B('+', V('t'), ('field', V(x), 'W')))], True), V('t')]
+    if form == 'create':
+        return [('create', x, 'K'), ASG(('field', V(x), 'W'), base), ('field', V(x), 'W')]
+    raise ValueError(form)
+
+
+def shadow_spec(symbol):
+    kind, x = symbol
+    ret = lambda b: b[:-1] + [RET(b[-1])]
+    rty = lambda form: 'string' if form == 'assign from the constant' and kind == 'string constant' else 'integer'
+    if kind == 'function accumulating in a variable of its own name':
+        total = [ASG(V('total'), I(0)), ASG(V('i'), I(1)),
+                 ('while', B('<=', V('i'), P('n')), [ASG(V('total'), B('+', V('total'), V('i'))), ASG(V('i'), B('+', V('i'), I(1)))], True),
+                 RET(V('total'))]
+    else:
+        total = [RET(B('+', P('n'), I(1)))]
+    functions = [('total', [('n', 'integer')], 'integer', total)]
+    for i, form in enumerate(shadow_forms(symbol)):
+        functions.append(('sh%d' % i, [('x', 'integer')], rty(form), ret(shadow_body(symbol, form, P('x')))))
+    read, lit = shadow_read_expr(symbol)
+    functions.append(('rd', [], 'string' if kind == 'string constant' else 'integer', [RET(read)]))
+    inner = {'function': F_('sh0', x=I(2)), 'bridge': NC('SH', 'b', x=I(2)), 'class operation': NC('K', 'shc', x=I(2)),
+             'instance operation': IC(V('k_'), 'shi', x=I(2)), 'derived attribute': ('field', V('k_'), 'shd')}
+    for i, k in enumerate(SHADOW_KINDS):
+        functions.append(('sw%d' % i, [], 'integer',
+                          [('selfrom', 'any', 'k_', 'K', None, True), ASG(V('a_'), read), ASG(V('c_'), inner[k]), ASG(V('b_'), read), ASG(V('r_'), V('c_')),
+                           IF(B('!=', V('a_'), lit), [ASG(V('r_'), B('+', V('r_'), I(1000)))]),
+                           IF(B('!=', V('b_'), lit), [ASG(V('r_'), B('+', V('r_'), I(2000)))]),
+                           RET(V('r_'))]))
+    own = B('+', SF('W'), P('x'))
+    d = shadow_body(symbol, 'assign', B('*', SF('W'), I(2)))
+    classes = [('K', [('Id', 'unique_id', None), ('W', 'integer', None), ('shd', 'integer', (d[:-1] + [ASG(SF('shd'), d[-1])], ret(d)))],
+                [('cop', False, [('k', 'integer')], 'integer', [RET(B('*', P('k'), I(2)))]),
+                 ('shc', False, [('x', 'integer')], 'integer', ret(shadow_body(symbol, 'assign', B('*', P('x'), I(3))))),
+                 ('shi', True, [('x', 'integer')], 'integer', ret(shadow_body(symbol, 'assign', own)))])]
+    ees = [('EE', [('b', [('p', 'integer')], 'integer', [RET(B('+', P('p'), I(1)))])]),
+           ('SH', [('b', [('x', 'integer')], 'integer', ret(shadow_body(symbol, 'assign', B('*', P('x'), I(5)))))])]
+    return dict(functions=functions, classes=classes, ees=ees, enums=[('Color', SHADOW_ENUM)], constants=SHADOW_CONSTANTS)
+
+
+def shadow_histories(symbol, tier):
+    '''quick: every sequence of 2 steps over the alphabet of the symbol, and every sequence of 3 steps that starts with a read of
+    the symbol (python or rd()) and ends with a read (python, rd() or sw_<kind>()); thorough: the same with 3 and 4 steps.'''
+    alpha = shadow_alphabet(symbol)
+    n = SHADOW_LEN[tier]
+    out = [list(h) for h in itertools.product(alpha, repeat=n - 1)]
+    out += [list(h) for h in itertools.product(alpha, repeat=n) if h[0][0] in ('pyread', 'oalread') and h[-1][0] != 'call']
+    return out
+
+
+def shadow_step_reference(spec, ref, symbol, st):
+    ev = E.Evaluator(ref, fuel=500, max_depth=14, **mini_reference(spec))
+    first = E.Handle('K', ref.order['K'][0])
+    if st[0] == 'call':
+        _, k, form = st
+        if k == 'function':
+            return ev.run(ev.functions['sh%d' % shadow_forms(symbol).index(form)].body, dict(x=2))
+        if k == 'bridge':
+            return ev.run(ev.bridges[('SH', 'b')].body, dict(x=2))
+        if k == 'class operation':
+            return ev.run(ev.operations[('K', 'shc')].body, dict(x=2))
+        if k == 'instance operation':
+            return ev.run(ev.operations[('K', 'shi')].body, dict(x=2), first)
+        return ev.read_attr(first, 'shd')
+    if st[0] == 'pyread':
+        kind, x = symbol
+        if kind.startswith('function'):
+            return ev.run(ev.functions['total'].body, dict(n=2))
+        if 'constant' in kind:
+            return ev.constants[x]
+        if kind == 'enumeration':
+            return list(range(len(SHADOW_ENUM)))
+        if kind == 'external entity':
+            return ev.run(ev.bridges[('EE', 'b')].body, dict(p=1))
+        return ev.run(ev.operations[('K', 'cop')].body, dict(k=1))
+    if st[0] == 'oalread':
+        return ev.run(ev.functions['rd'].body, {})
+    return ev.run(ev.functions['sw%d' % SHADOW_KINDS.index(st[1])].body, {})
+
+
+def shadow_step_real(dom, first, symbol, st):
+    if st[0] == 'call':
+        _, k, form = st
+        if k == 'function':
+            return dom.find_symbol('sh%d' % shadow_forms(symbol).index(form))(x=2)
+        if k == 'bridge':
+            return dom.find_symbol('SH').b(x=2)
+        if k == 'class operation':
+            return dom.find_class('K').shc(x=2)
+        if k == 'instance operation':
+            return first.shi(x=2)
+        return first.shd
+    if st[0] == 'pyread':
+        kind, x = symbol
+        if kind.startswith('function'):
+            return dom.find_symbol('total')(n=2)
+        if 'constant' in kind:
+            return dom.find_symbol(x)
+        if kind == 'enumeration':
+            c = dom.find_symbol('Color')
+            return [getattr(c, n) for n in SHADOW_ENUM]
+        if kind == 'external entity':
+            return dom.find_symbol('EE').b(p=1)
+        return dom.find_class('K').cop(k=1)
+    if st[0] == 'oalread':
+        return dom.find_symbol('rd')()
+    return dom.find_symbol('sw%d' % SHADOW_KINDS.index(st[1]))()
+
+
+def compare_shadow_history(ctx, symbol, history, bp=None, spec=None):
+    from bridgepoint import ooaofooa
+    spec = spec or shadow_spec(symbol)
+    bp = bp if bp is not None else build_mini_model(spec)
+    case = dict(family='shadow', symbol=symbol, history=history)
+    ref = relmodel.Ref(mini_schema(spec))
+    dom = ooaofooa.mk_component(bp)
+    for w in (3, 5):
+        ref.new('K', dict(W=w))
+    first = dom.new('K', W=3)
+    dom.new('K', W=5)
+    ctx.count('shadow_histories')
+    called = False
+    for pos, st in enumerate(history):
+        exp = shadow_step_reference(spec, ref, symbol, st)
+        what = 'shadow:%s' % (st[0] if st[0] != 'call' else 'call:' + st[1].replace(' ', '-'))
+        text = 'step %d (%s) of history %s with variables spelled like the %s %s' % (pos, st, history, symbol[0], symbol[1])
+        ctx.count('calls')
+        ctx.count('shadow_steps')
+        try:
+            with core.time_limit(10.0):
+                got = shadow_step_real(dom, first, symbol, st)
+        except core.Timeout:
+            ctx.violation('c15:%s:hang' % what, case, '%s does not return within 10 s' % text, None, 'timeout')
+            return 'bad'
+        except Exception as e:
+            ctx.violation('c15:%s:crash:%s' % (what, type(e).__name__), case, '%s raised %s: %s; expected %r' % (text, type(e).__name__, e, exp),
+                          norm_value(exp), type(e).__name__)
+            return 'bad'
+        if norm_value(got) != norm_value(exp):
+            ctx.violation('c15:%s:value' % what, case, '%s delivered %r, expected %r' % (text, got, exp), norm_value(exp), norm_value(got))
+            return 'bad'
+        if st[0] == 'call' or st[0] == 'sandwich':
+            called = True
+        elif called:
+            ctx.count('shadow_reads_after_a_call')
+        ctx.distinct('outcomes', ('shadow', symbol[0], repr(st), repr(norm_value(exp))))
+    exp_pop = [ref.insts[i].values['W'] for i in ref.order['K']]
+    got_pop = [i.W for i in dom.select_many('K')]
+    if got_pop != exp_pop:
+        ctx.violation('c15:shadow:population', case, 'history %s with variables spelled like the %s %s leaves K.W = %r, expected %r'
+                      % (history, symbol[0], symbol[1], got_pop, exp_pop), exp_pop, got_pop)
+        return 'bad'
+    ctx.count('traces')
+    ctx.distinct('nontrivial', ('shadow', symbol[0], repr(history)))
+    return 'ok'
+
+
+def shadow_task(ctx, task):
+    tier, symbol, hs = task
+    spec = shadow_spec(symbol)
+    bp = build_mini_model(spec)
+    for h in hs:
+        compare_shadow_history(ctx, symbol, h, bp, spec)
 
 
 # ---- row order ----------------------------------------------------------------------
@@ -1398,6 +1656,18 @@ def run(ctx):
     hl = hl[k:] + hl[:k]
     hchunk = 60 if ctx.quick else 400
     ctx.pmap(history_task, [(ctx.tier, s, hl[i:i + hchunk]) for s in history_systems() for i in range(0, len(hl), hchunk)])
+    pairs = parameter_name_pairs(ctx.tier)
+    pairs = pairs[k:] + pairs[:k]
+    ctx.pmap(paramname_task, [(ctx.tier, pairs[i:i + 8]) for i in range(0, len(pairs), 8)])
+    schunk = 40 if ctx.quick else 400
+    stasks = []
+    for symbol in SHADOW_SYMBOLS:
+        sh = shadow_histories(symbol, ctx.tier)
+        sh = sh[k:] + sh[:k]
+        stasks += [(ctx.tier, symbol, sh[i:i + schunk]) for i in range(0, len(sh), schunk)]
+    ctx.pmap(shadow_task, stasks)
+    ctx.sample(dict(parameter_names=[n for n, _ in parameter_names(ctx.tier)][:12], pf_body=body_text(pn_spec('label')[0]['functions'][0][3]),
+                    shadow_bodies=[body_text(f[3]) for f in shadow_spec(SHADOW_SYMBOLS[2])['functions'][1:4]]))
     ctx.sample(dict(system=dict((s, BODIES[s][sysl[0][s]][0]) for s in SLOTS), f_body=body_text(BODIES['f'][sysl[0]['f']][1]),
                     entries=[e[0] for e in entries()][:6]))
     ctx.sample(dict(body_F4=body_text(BODIES['f'][3][1]), body_C2=body_text(BODIES['cop'][1][1])))
@@ -1407,11 +1677,25 @@ def run(ctx):
     ctx.require(ctx.nd('outcomes') >= 25, 'too few distinct outcomes (%d)' % ctx.nd('outcomes'))
     ctx.require(ctx.n('histories') >= 1000, 'too few histories (%d)' % ctx.n('histories'))
     ctx.require(ctx.n('history_rejected_reads') >= 200, 'too few rejected reads in histories (%d)' % ctx.n('history_rejected_reads'))
+    ctx.require(ctx.n('parameter_names') >= 150 and ctx.n('paramname_calls') >= 800,
+                'too few parameter names / calls with them (%d / %d)' % (ctx.n('parameter_names'), ctx.n('paramname_calls')))
+    by_source = dict((src, sum(1 for _, s_ in parameter_names(ctx.tier) if s_ == src)) for src in set(s_ for _, s_ in parameter_names(ctx.tier)))
+    ctx.require(by_source.get('parameter or variable of a library function', 0) >= 60 and by_source.get('python keyword', 0) >= 15,
+                'too few names of library parameters / python keywords among the parameter names (%r)' % by_source)
+    ctx.require(ctx.n('shadow_histories') >= 2000 and ctx.n('shadow_reads_after_a_call') >= 1000,
+                'too few histories with variables spelled like domain symbols / reads of the symbol after such a variable was written (%d / %d)'
+                % (ctx.n('shadow_histories'), ctx.n('shadow_reads_after_a_call')))
     ctx.require(ctx.n('history_recovered_reads') >= 50, 'too few accepted reads after a rejected read of the same attribute of the '
                 'same instance (%d)' % ctx.n('history_recovered_reads'))
 
 
 def replay(ctx, case):
+    if case.get('family') == 'paramname':
+        compare_parameter_name(ctx, case['name'], case['entry'], None, case['partner'])
+        return
+    if case.get('family') == 'shadow':
+        compare_shadow_history(ctx, case['symbol'], case['history'])
+        return
     system = case['system']
     if case.get('family') == 'history':
         compare_history(ctx, system, case['history'], build_bp_model(system))
@@ -1449,11 +1733,17 @@ def coverage(ctx):
         call_systems=ctx.n('systems'), row_orders=ctx.n('row_orders'),
         histories=ctx.n('histories'), history_reads=ctx.n('history_reads'), history_rejected_reads=ctx.n('history_rejected_reads'),
         history_reads_accepted_after_a_rejected_read=ctx.n('history_recovered_reads'),
+        parameter_names=ctx.n('parameter_names'), calls_with_named_parameters=ctx.n('paramname_calls'),
+        calls_with_named_parameters_skipped_as_known_defect=ctx.n('paramname_known_defect_skipped'),
+        shadow_histories=ctx.n('shadow_histories'), shadow_steps=ctx.n('shadow_steps'),
+        shadow_reads_after_a_call=ctx.n('shadow_reads_after_a_call'),
         distinct_nontrivial=ctx.nd('nontrivial'), distinct_outcomes=ctx.nd('outcomes'),
         rule='states = call systems (assignments of bodies to f, g, h, A.op, A.cop, A.D, EE::b) plus permuted model texts; every entry '
              'call of the menu (python and OAL callers) is executed on both sides; non-trivial = distinct (system, entry) pairs that '
              'were compared successfully (all involve at least one call into an OAL body); plus, per body of the derived attribute, '
-             'every executable step sequence of the stated length over the history alphabet that ends with a read',
+             'every executable step sequence of the stated length over the history alphabet that ends with a read; plus, per '
+             'parameter name of the alphabet, the six entries of the parameter-name model; plus, per domain symbol, the step '
+             'sequences over callables writing a variable spelled like the symbol and reads of the symbol',
         bounds=dict(bodies=dict((s, [b[0] for b in BODIES[s]]) for s in SLOTS), entries=len(entries()),
                     entries_over_constants_and_same_named_members=len(extra_entries()),
                     constants=dict((name, value) for name, _, value, _ in CONSTANTS),
@@ -1465,6 +1755,15 @@ def coverage(ctx):
                     external_entity_CALC=dict(bridges=[(n, [pn for pn, _ in ps], rt) for n, ps, rt, _ in CALC_BRIDGES],
                                               python_calls=len(CALC_PY_CALLS), orders='as listed and reversed'),
                     bodies_outside_the_call_system_product=dict((s, [b[0] for b in BODIES[s][n:]]) for s, n in N_PRODUCT.items()),
+                    parameter_names=dict(alphabet=len(parameter_names(ctx.tier)),
+                                         sources=dict((src, sum(1 for _, s_ in parameter_names(ctx.tier) if s_ == src))
+                                                      for src in sorted(set(s_ for _, s_ in parameter_names(ctx.tier)))),
+                                         partner='q' if ctx.quick else 'q, and the next name of the alphabet', entries=PN_ENTRIES,
+                                         known_defect_kept_out=dict((n, list(e)) for n, e in PN_KNOWN.items())),
+                    variables_spelled_like_symbols=dict(symbols=SHADOW_SYMBOLS, kinds=SHADOW_KINDS, forms=SHADOW_FORMS + ['assign from the constant'],
+                                                        steps=SHADOW_LEN[ctx.tier],
+                                                        histories='every sequence of steps-1 steps; every sequence of that many steps that '
+                                                                  'starts with a read of the symbol and ends with a read'),
                     history=dict(length=HIST_LEN[ctx.tier], alphabet=HIST_ALPHABET, initial_population='one instance i0 with N = 0',
                                  max_instances=2, systems=[BODIES['D'][s['D']][0] for s in history_systems()])),
         exhaustive=not ctx.caps_hit,
